@@ -3,7 +3,7 @@
 -/
 import FlacModel.Model.Par
 import FlacModel.Gen.Kernels
-import FlacModel.Gen.EncConst
+import FlacModel.Gen.Par
 
 namespace Flac.C18
 open Flac.Par
